@@ -66,6 +66,11 @@ pub struct EncSpec {
     /// the leaf find every key).  Only with a single-leaf tree.
     #[serde(default)]
     pub chrom_ids_in_given_order: bool,
+    /// the chromosome tree is sorted by key as usual, but ids run the other way (the largest name
+    /// has id 0): what the UCSC writers produce for input whose order of first appearance is not
+    /// the byte order of the names.  Tree order and id order then differ.
+    #[serde(default)]
+    pub chrom_ids_reverse_of_keys: bool,
     pub fanout: usize,
     pub placement: Placement,
     /// zoom reductions to write
@@ -437,7 +442,14 @@ pub fn encode(spec: &EncSpec) -> Encoded {
     if spec.chrom_ids_in_given_order && spec.chrom_block >= spec.chroms.len() {
         order.reverse();
     }
-    let chroms: Vec<(String, u32, u32)> = order.iter().enumerate().map(|(id, i)| (spec.chroms[*i].name.clone(), id as u32, spec.chroms[*i].size)).collect();
+    if spec.chrom_ids_reverse_of_keys && !spec.chrom_ids_in_given_order {
+        order.reverse();
+    }
+    // in id order; the tree lists them in key order when ids and keys run in opposite directions
+    let mut chroms: Vec<(String, u32, u32)> = order.iter().enumerate().map(|(id, i)| (spec.chroms[*i].name.clone(), id as u32, spec.chroms[*i].size)).collect();
+    if spec.chrom_ids_reverse_of_keys && !spec.chrom_ids_in_given_order {
+        chroms.sort_by(|a, b| a.0.as_bytes().cmp(b.0.as_bytes()));
+    }
     let magic = if spec.bed { super::indep::BIGBED_MAGIC } else { super::indep::BIGWIG_MAGIC };
     // header placeholder
     w.bytes(&[0u8; 64]);
